@@ -338,7 +338,7 @@ def main():
     for f in funs:
         st, det = results.get(f['id'], ('untranslatable', 'internal: no verdict'))
         o = {'rust': f['rust'], 'model': f['model'], 'props': f['props'], 'status': st, 'detail': det,
-             'gen': f['gen'], 'source': '%s:%s' % (f.get('file'), f.get('line')), 'via': 'bridge' if f.get('bridge') else 'reflexivity'}
+             'gen': f['gen'], 'source': '%s:%s' % (f.get('file'), f.get('line')), 'via': f.get('via') or ('bridge' if f.get('bridge') else 'reflexivity')}
         out_f.append(o)
     out_h = [{'rust': f['rust'], 'kind': f['kind'], 'status': f['status'], 'detail': f['detail']} for f in helpers]
     summary = {'equal': 0, 'differs': 0, 'untranslatable': 0}
